@@ -152,7 +152,7 @@ def version_route(F, R):
     R.ob('C19.version-route', 'types::MQTT_LEVEL_3=4,MQTT_LEVEL_5=5', consts.get('MQTT_LEVEL_3') == 4 and consts.get('MQTT_LEVEL_5') == 5, 'constants %s' % consts)
 
 
-def setter_from(F, R, b, name, setter_pat, want_fields, arg_idx=1, root=None, key=None):
+def setter_from(F, R, b, name, setter_pat, want_fields, arg_idx=1, root=None, key=None, announced=False):
     sites = [(bi, t) for bi, t in b.calls_to(setter_pat)]
     hit = []
     for bi, t in sites:
@@ -174,7 +174,11 @@ def setter_from(F, R, b, name, setter_pat, want_fields, arg_idx=1, root=None, ke
     if hit and disp:
         # `if let Some(v) = <the negotiated Option> { set(v) }`: the absent edge legitimately leaves the default
         through = set(hit)
-        for h in hit:
+        # ... unless the same setter was already applied earlier on this path with another (configured) value: then the
+        # absent edge keeps a limit that was not negotiated, while the announcement says "no limit"
+        # (only for limits the peer is told about: MQTT 3.1.1 has no such announcement, there the absent case keeps the configured default)
+        preset = [bi for bi, t in sites if bi not in hit and any(bi in b.dom.get(h, ()) for h in hit)] if announced else []
+        for h in ([] if preset else hit):
             for sb in b.dom.get(h, ()):
                 t_ = b.blocks[sb]['term']
                 if t_['k'] != 'switch' or sb == h:
@@ -198,7 +202,7 @@ def limits(F, R):
     setter_from(F, R, b, 'v5-server|max QoS <- ack.packet.max_qos', r'^v5::shared::MqttShared::set_max_qos$', ['packet', 'max_qos'])
     setter_from(F, R, b, 'v5-server|receive maximum <- ack.packet.receive_max', r'^v5::shared::MqttShared::set_receive_max$', ['packet', 'receive_max'])
     setter_from(F, R, b, 'v5-server|topic alias maximum <- ack.packet.topic_alias_max', r'^v5::shared::MqttShared::set_topic_alias_max$', ['packet', 'topic_alias_max'])
-    setter_from(F, R, b, 'v5-server|inbound max size <- ack.packet.max_packet_size', r'^v5::codec::codec::Codec::set_max_inbound_size$', ['packet', 'max_packet_size'])
+    setter_from(F, R, b, 'v5-server|inbound max size <- ack.packet.max_packet_size', r'^v5::codec::codec::Codec::set_max_inbound_size$', ['packet', 'max_packet_size'], announced=True)
     setter_from(F, R, b, 'v5-server|outbound max size <- CONNECT.max_packet_size', r'^v5::codec::codec::Codec::set_max_outbound_size$', ['max_packet_size'])
     setter_from(F, R, b, 'v5-server|send window <- min(max_send, CONNECT.receive_max)', r'^v5::shared::MqttShared::set_cap$', ['max_send', 'receive_max'])
     # announced keep-alive
@@ -212,6 +216,23 @@ def limits(F, R):
                 names = c05.origin_field_names(F, b, s['rv']['op'], TRANSPARENT_CALLS)
             ka = ka or 'keepalive' in names
     R.ob('C19.limits', 'v5-server|announced keep-alive <- ack.keepalive', ka, 'an imposed keep-alive is not announced in CONNACK (server_keepalive_sec = Some(ack.keepalive))')
+    # v5 client: a Server Keep Alive in CONNACK replaces the client's own value [MQTT-3.2.2-21]; it is not combined with it
+    cb = F.one(r'^v5::client::connector::MqttConnectorService::<A, T>::connect_inner::\{closure#0\}$')
+    news = [(bi, t) for bi, t in cb.calls_to(r'^v5::client::connection::Client::new$')]
+    R.ob('C19.limits', 'v5-client|Client::new sites', len(news) >= 1, 'found %d' % len(news))
+    for bi, t in news:
+        ka_args = [a for a in t['args'] if 'Seconds' in (cb.local_ty(op_place(a)['l']) if op_place(a) else '')]
+        ok = False
+        why = 'no keep-alive argument found'
+        for a in ka_args:
+            import c05
+            names = c05.origin_field_names(F, cb, a, re.compile(TRANSPARENT_CALLS.pattern[:-2] + r'|Seconds)$'))
+            og = Origin(cb, transparent=re.compile(TRANSPARENT_CALLS.pattern[:-2] + r'|Seconds)$')).of_operand(a)
+            mixers = sorted({l[1].split('::')[-1] for l in og if l[0] == 'call' and re.search(r'(::min|::max|map_or|map_or_else|and_then|filter|min_by|max_by|clamp|saturating_sub|checked_sub)$', l[1] or '')} | {'closure' for l in og if l[0] == 'agg' and 'closure' in str(l[1])})
+            ok = 'server_keepalive_sec' in names and not mixers
+            why = 'keep-alive handed to the client derives from %s%s' % (sorted(names)[:6], (' combined through %s' % mixers) if mixers else '')
+        R.ob('C19.limits', 'v5-client|keep-alive <- CONNACK.server_keepalive_sec replaces the own value', ok,
+             '%s: when the server imposes a keep-alive the client must use exactly that value (otherwise it pings too rarely or not at all and is disconnected)' % why, cb.loc(bi))
     # returned keep-alive (tuple .3) derives from ack.keepalive
     for ver in ('v3', 'v5'):
         hb = F.one(HS[ver])
